@@ -195,6 +195,10 @@ def scenarios(ctx):
     out.append(Std('reenter-connected-disconnect', profile='pubsub', mode='async', connects=[(True, 2, 4), (False, 0, 3)],
                    reconnects=[(True, 2, 4)], reenter=('ok:connect>disconnect',), lose_kinds=('done',), drain_max_ticks=12,
                    drain_horizon=40.0, budgets=dict(connect=2, connack=2, tick=3, lose=1, rebuild=1)))
+    # the transport is lost before connect() was ever called on the protocol
+    out.append(Std('lost-before-connect', profile='pubsub', mode='async', connects=[(True, 0, 4), (False, 3, 3)],
+                   reconnects=[(False, 3, 4)], lose_new=True, lose_kinds=('done', 'lost'), drain_max_ticks=12, drain_horizon=40.0,
+                   pub_qos=(1,), budgets=dict(connect=2, connack=2, tick=2, lose=2, rebuild=2, pub=1, reconn2=1)))
     # connect() called again from the errback of a connect() the broker refused or that timed out
     for mode in ('sync', 'async'):
         out.append(Std('reenter-refused-connect-%s' % mode, profile='pubsub', mode=mode, connects=[(True, 2, 4), (False, 0, 3)],
